@@ -89,7 +89,9 @@ class TWP(IdEnvWP):
 
     # -- ghost state: which row copies were performed
     def ghost_init(self):
-        for k in ('ghost.rows', 'ghost.dst', 'ghost.src', 'ghost.len', 'ghost.idx', 'ghost.idx_pos', 'ghost.alloc'):
+        self.events = []
+        for k in ('ghost.rows', 'ghost.dst', 'ghost.src', 'ghost.len', 'ghost.idx', 'ghost.idx_pos', 'ghost.alloc',
+                  'ghost.gets', 'ghost.adds', 'ghost.get_in', 'ghost.get_out', 'ghost.add_dst', 'ghost.add_src', 'ghost.add_len'):
             self.env[k] = V('0', 'Int', 'long')
         self.env['ghost.cell'] = V('0', 'Int', 'long')
         self.copy_bufs = None
@@ -814,6 +816,38 @@ def h_view_assign(wp, n, args, callee):
     return dst
 
 
+def h_view_addassign(wp, n, args, callee):
+    """Eigen Map += Map: same number of coefficients on both sides (Eigen asserts it); coefficient-wise addition (ASSUMED)"""
+    dst = wp.ev(look(args[0]))
+    src = wp.ev(look(args[1]))
+    if dst.s != 'View' or src.s != 'View':
+        raise Unsupported('+= between unmodelled Eigen expressions')
+    wp.oblige('Eigen Map +=: source and destination have the same length', f'(= {dst.c["len"]} {src.c["len"]})', n)
+    wp.ghost_bump('ghost.adds')
+    wp.ghost_set('ghost.add_dst', dst.c['off'])
+    wp.ghost_set('ghost.add_src', src.c['off'])
+    wp.ghost_set('ghost.add_len', dst.c['len'])
+    wp.events.append(('add', dst.c['buf'], src.c['buf']))
+    return dst
+
+
+def h_integral_get(wp, n, args, callee):
+    """integral_t<R>::get(itensor, otensor), call-site contract: same dims, no empty axis (integral() checks size() > 0
+    and asserts the dims equal); fills otensor with the summed-area table of itensor (values: CBMC side for rank 1)"""
+    a = wp.tensor_of(args[0])
+    b = wp.tensor_of(args[1])
+    da, db = wp.elems(wp.tens[a]['dims']), wp.elems(wp.tens[b]['dims'])
+    if len(da) != len(db):
+        raise Unsupported('integral_t::get on tensors of different rank')
+    wp.oblige('callee integral_t::get precondition: itensor.dims() == otensor.dims()', AND(*[f'(= {x} {y})' for x, y in zip(da, db)]), n)
+    wp.oblige('callee integral_t::get precondition: no empty axis (size() > 0)', AND(*[f'(>= {x} 1)' for x in da]), n)
+    wp.ghost_bump('ghost.gets')
+    wp.ghost_set('ghost.get_in', wp.tens[a]['off'])
+    wp.ghost_set('ghost.get_out', wp.tens[b]['off'])
+    wp.events.append(('get', wp.tens[a]['buf'], wp.tens[b]['buf'], len(da)))
+    return V('0', 'Int', 'int')
+
+
 def expected_indexed_dims(wp, tid, itid):
     R = wp.env[wp.tens[tid]['dims']].c
     return [wp.dim(itid, 0)] + [wp.dim(tid, k) for k in range(1, R)]
@@ -858,11 +892,13 @@ CALLS = [
     (r'^operator!=\|.*(tensor_dims_t|std::array)', h_dims_cmp(True)),
     (r'^operator\[\]\|.*std::array', h_array_subscript),
     (r'^map_vector\|', h_map_vector), (r'^map_matrix\|', h_map_matrix), (r'^map_tensor\|', h_map_tensor),
+    (r'^operator\+=\|.*Eigen::', h_view_addassign),
     (r'^operator=\|std::array', h_array_assign), (r'^operator=\|.*Eigen::', h_view_assign),
     (r'^operator\(\)\|', h_call_operator),
 ]
 from wplib import h_std_get, h_array_fill  # noqa: E402
 CALLS[0] = (r'^get\|', h_std_get)
+CALLS.insert(0, (r'^get\|void \(tensor_cmap_t', h_integral_get))
 
 MEMBERS = [
     (r'^fill\|std::array', h_array_fill),
